@@ -3,11 +3,13 @@
    stay Coq datatypes.  No Extract Constant. *)
 From Coq Require Extraction.
 From Coq Require ExtrOcamlBasic.
-From PasfmtVerif Require Import Model.Token Model.Reconstruct Model.Rewriters.
+From PasfmtVerif Require Import Model.Token Model.Reconstruct Model.Rewriters Model.Toggle Model.Canon Model.DirectiveTree.
 Extraction Language OCaml.
 Extraction "model.ml"
   all_RawTokenType all_TokenType all_LogicalLineType tt_of_raw
   strip fold_case
   Z.of_N Z.add Nat.add
   rs_new rs_of_config reconstruct
-  lowercase_keywords comment_formatter eof_newline_once r01_b tok_ok_b.
+  lowercase_keywords comment_formatter eof_newline_once r01_b tok_ok_b
+  parse_toggle toggle_marks ignore_marks void_lines canon_fmt canon_first_bad eof_canon ends_nonblank
+  all_passes.
